@@ -880,6 +880,26 @@ def run_as_one_simulated_caller(fn: Callable[[], Any], seed: int, pkg_dir: str,
     return box.get("ok"), sched
 
 
+def as_one_caller(prop: str, fn: Callable[[], dict[str, Any]], seed: int, pkg_dir: str,
+                  preempt_lines: bool = True) -> dict[str, Any]:
+    """``fn`` is a check's whole main-thread workload (a plain sequence of library calls).  On a
+    tree whose library makes threads of its own it is run as ONE simulated caller; a deadlock is
+    the verdict ``<prop>/deadlock/call-never-returns``."""
+    try:
+        res, sched = run_as_one_simulated_caller(fn, seed, pkg_dir, preempt_lines=preempt_lines)
+    except SimDeadlock as e:
+        return {"violations": [{"sig": f"{prop}/deadlock/call-never-returns",
+                                "detail": f"{e} (under this schedule of the library's own threads a call "
+                                          "into the library never returns)"}],
+                "digest": hashlib.sha256(("deadlock:" + str(e)).encode()).hexdigest()[:32],
+                "evals": 1, "nontrivial": []}
+    res["knobs"] = {**(res.get("knobs") or {}), "whole_run_as_one_simulated_caller": 1}
+    res.setdefault("sim_steps", sched.global_step)
+    res.setdefault("switches", sched.switches)
+    res["probes"] = {**(res.get("probes") or {}), **sched.probes}
+    return res
+
+
 def caller_boundary() -> None:
     """Between two library calls of a simulated caller: a point where a thread the library runs
     in the background may be scheduled (no-op outside a simulation)."""
